@@ -28,7 +28,8 @@ def calc_tidal_susceptibility(host_mass: float, target_radius: float, semi_major
         Tidal Susceptibility [N m]
     """
 
-    tidal_susceptibility = (3. / 2.) * G * host_mass**2 * target_radius**5 / semi_major_axis**6
+    # The powers are taken of floats: an integer radius or semi-major axis would be raised in (wrapping) 64-bit integer arithmetic.
+    tidal_susceptibility = (3. / 2.) * G * host_mass**2 * (1. * target_radius)**5 / (1. * semi_major_axis)**6
 
     return tidal_susceptibility
 
